@@ -321,12 +321,25 @@ func VH_Tokens() {
 					}
 				}
 				complete := vTrim(f.LHS+f.Comparator+f.RHS) == vTrim(word+rest)
+				// the operator at that place, in full: a two-character operator is not cut into a
+				// one-character operator and a value that starts with '='
+				longest := ""
+				for _, o := range ops {
+					if len(o) > len(longest) && len(rest) >= len(o) && rest[:len(o)] == o {
+						longest = o
+					}
+				}
 				if vKF("C14-filter-text-truncated") {
 					vKnown("C14-filter-text-truncated", isOp && len(word) > 0 && f.LHS == word && complete)
 					continue
 				}
 				vAssert(f.Type == typ, "C14/filter-kind")
 				vAssert(isOp, "C14/filter-operator-not-an-operator")
+				// (when nothing but blanks follows the longer operator the line has another reading, which
+				// the property does not rule out: `x<=` as x < "=")
+				if longest != "" && len(vTrim(rest[len(longest):])) > 0 {
+					vAssert(f.Comparator == longest, "C14/filter-operator-is-not-the-complete-operator-text")
+				}
 				vAssert(len(word) > 0 && f.LHS == word, "C14/filter-field-not-the-complete-text-before-the-operator")
 				vAssert(complete, "C14/filter-text-not-accounted-for-in-full")
 			}
@@ -572,4 +585,47 @@ func VH_RoundTrip() {
 	}
 	t2, err := rule.ToCommandLine(w2, false)
 	vAssert(err == nil && t2 == t1, "C07/second-decode-gives-different-text")
+}
+
+func init() { vEntries["VH_ParseHistory"] = VH_ParseHistory }
+
+// VH_ParseHistory: what Parse makes of a line does not depend on the lines parsed before it
+// (accepted or rejected at different places): line, other line, the line again -> the same rule.
+func VH_ParseHistory() {
+	goods := []string{
+		"-a always,exit -F arch=b64 -S open,59 -F uid!=0 -F exe=/bin/x -k k1 -k k2",
+		"-w /etc/passwd -p wa -k a,b",
+		"-D -k gone",
+		"-A user,never -F pid>7 -C uid!=euid",
+	}
+	others := []string{
+		"-a always,exit -F uid=1 -F nosuch", "-a always,exit -S open -F", "-w /x -p wa -a exit,always", "-S open -k zz", "-a bogus,always -S 1 -k q",
+		"-a always,exit -S 1 -k", "-a always,exit -k one -k two -F 'a b'=c", "-w /y -p rwxaq -k p", "-D -w /z", "-a always,exit -C uid=gid -k r", "-a exit,always -S 2 'stray'",
+		"-a never,task -F pid=1 -k fine",
+	}
+	g := goods[vChoose("good", len(goods))]
+	o := others[vChoose("other", len(others))]
+	r1, err1 := Parse(g)
+	vAssert(err1 == nil && r1 != nil, "C14/base-line-rejected")
+	if r1 == nil {
+		return
+	}
+	if _, errO := Parse(o); errO != nil {
+		vReach("C14/other-line-rejected")
+	}
+	r2, err2 := Parse(g)
+	vAssert(err2 == nil && r2 != nil, "C14/parse-depends-on-lines-parsed-before")
+	if r2 == nil {
+		return
+	}
+	w1, e1 := rule.Build(r1)
+	w2, e2 := rule.Build(r2)
+	vAssert((e1 == nil) == (e2 == nil), "C14/parse-depends-on-lines-parsed-before")
+	same := len(w1) == len(w2)
+	for i := 0; same && i < len(w1); i++ {
+		if w1[i] != w2[i] {
+			same = false
+		}
+	}
+	vAssert(same, "C14/parse-depends-on-lines-parsed-before")
 }
